@@ -5,6 +5,7 @@ mod fam_cipher;
 mod fam_codec;
 mod fam_frame;
 mod fam_round;
+mod fam_split;
 mod gen;
 mod refdec;
 mod toy;
@@ -49,6 +50,7 @@ fn main() {
         "codec" => fam_codec::codec(&mut ctx),
         "entry" => fam_codec::entry(&mut ctx),
         "roundtrip" => fam_round::roundtrip(&mut ctx),
+        "split" => fam_split::split(&mut ctx),
         f => {
             eprintln!("unknown family {f}");
             std::process::exit(2);
